@@ -338,9 +338,9 @@ class Simulator(EventProducer, SimulatorInterface, Generic[TIME]):
         self._run_state = RunState.NOT_INITIALIZED
         self._replication_state = ReplicationState.NOT_INITIALIZED
     
-    def _start_impl(self):
-        """Implementation of the start method. Checks preconditions for 
-        running and fires the right events."""
+    def _check_start(self):
+        """Check the preconditions for starting the simulator. When one of 
+        them does not hold, a DSOLError is raised and nothing is changed."""
         if self.is_starting_or_running():
             raise DSOLError("cannot start a running simulator")
         if self._replication == None:
@@ -352,6 +352,11 @@ class Simulator(EventProducer, SimulatorInterface, Generic[TIME]):
             raise DSOLError("replication state not INITIALIZED or STARTED")
         if self._simulator_time >= self._replication.end_sim_time:
             raise DSOLError("cannot start: simulator_time > run length")
+
+    def _start_impl(self):
+        """Implementation of the start method. Checks preconditions for 
+        running and fires the right events."""
+        self._check_start()
         self._run_state = RunState.STARTING
         if self._replication_state == ReplicationState.INITIALIZED:
             self.fire_timed(self._simulator_time,
@@ -372,8 +377,8 @@ class Simulator(EventProducer, SimulatorInterface, Generic[TIME]):
         exception will be thrown, and no event will be fired. The start 
         uses the RunUntil property with a value of the end time of the 
         replication when starting the simulator."""
-        if self._replication == None:
-            raise DSOLError("no replication details")
+        # a refused start must not touch the bound of a run in progress
+        self._check_start()
         self._run_until_time = self._replication.end_sim_time
         self._run_until_including = True
         self._start_impl()
@@ -441,6 +446,8 @@ class Simulator(EventProducer, SimulatorInterface, Generic[TIME]):
         """Runs the simulator up to a certain time; any events at that time, 
         or the solving of the differential equation at that timestep, 
         will not yet be executed."""
+        # a refused command must not touch the bound of a run in progress
+        self._check_start()
         self._run_until_time = stop_time
         self._run_until_including = False
         self._start_impl()
@@ -449,6 +456,8 @@ class Simulator(EventProducer, SimulatorInterface, Generic[TIME]):
         """Runs the simulator up to a certain time; all events at that time, 
         or the solving of the differential equation at that timestep, 
         will be executed."""
+        # a refused command must not touch the bound of a run in progress
+        self._check_start()
         self._run_until_time = stop_time
         self._run_until_including = True
         self._start_impl()
